@@ -2,6 +2,7 @@ package harness
 
 import (
 	"fmt"
+	"regexp"
 	"strings"
 
 	"seehuhn.de/go/postscript/cid"
@@ -100,7 +101,7 @@ func c20Font(c *explore.Ctx) (*sfnt.Font, []string, string) {
 		g glyph.ID
 	}{{'A', 1}, {'B', 2}, {0xFB01, 3}, {0xE000, 4}, {0x10000, 2}, {'x', 4}} {
 		on := false
-		if e.r == 0x10000 || e.r == 'B' || e.r == 0xE000 {
+		if e.r == 0x10000 || e.r == 'x' || e.r == 0xE000 {
 			on = c.Deviate(2, fmt.Sprintf("map %U", e.r)) == 1
 		} else {
 			on = c.Bool(fmt.Sprintf("map %U", e.r))
@@ -115,7 +116,7 @@ func c20Font(c *explore.Ctx) (*sfnt.Font, []string, string) {
 		f.InstallCMap(cm12)
 	}
 	f.Gsub = nil
-	switch c.Choose(9, "gsub") {
+	switch c.Choose(10, "gsub") {
 	case 1:
 		f.Gsub = &gtab.Info{LookupList: gtab.LookupList{gen.MakeLookup(1, gen.Flags[0], []gtab.Subtable{&gtab.Gsub1_1{Cov: coverage.Set{1: true, 2: true}, Delta: 2}})}}
 		desc += ", GSUB1.1 {1,2}+2"
@@ -131,6 +132,10 @@ func c20Font(c *explore.Ctx) (*sfnt.Font, []string, string) {
 	case 5:
 		f.Gsub = &gtab.Info{LookupList: gtab.LookupList{gen.MakeLookup(4, gen.Flags[0], []gtab.Subtable{&gtab.Gsub4_1{Cov: coverage.Table{1: 0, 2: 1}, Repl: [][]gtab.Ligature{{{In: []glyph.ID{2}, Out: 4}}, {{In: []glyph.ID{1}, Out: 4}}}}})}}
 		desc += ", GSUB4 1+2->4 2+1->4"
+	case 9:
+		// variants with smaller glyph ids than their bases: the delta is negative (stored modulo 65536)
+		f.Gsub = &gtab.Info{LookupList: gtab.LookupList{gen.MakeLookup(1, gen.Flags[0], []gtab.Subtable{&gtab.Gsub1_1{Cov: coverage.Set{3: true, 4: true}, Delta: 0xFFFE}})}}
+		desc += ", GSUB1.1 {3,4}-2"
 	case 6:
 		// two lookups (e.g. liga and dlig) with the same components and different outputs
 		lig := func(out glyph.ID) *gtab.LookupTable {
@@ -192,7 +197,7 @@ func c20Check(c *explore.Ctx, sig string, orig, got []string, n int, desc string
 
 func c20Names(r *run.Run) {
 	r.Explore(explore.Config{Name: "C20.names", Bound: c20Bound(r), Deadline: r.PartDeadline(0.6)},
-		"5-glyph fonts: 5 outline/name-storage kinds (CFF, CID, glyf with no / too short / full names list) x all name patterns over {empty, A, dup, .notdef, 'a b', f_i, B} per glyph x all subsets of 6 cmap entries (incl. a ligature character, a PUA and an astral code, two codes on one glyph) x 9 GSUB variants (1.1, 1.2 with two sources for one target, 3.1, 4.1, 4.1 with one output of two rules, two ligature lookups with equal components and different outputs, two single substitutions of one glyph, a ligature of a ligature): complete, distinct, .notdef first, unique names kept, inference from cmap / substitutions, retrievable after EnsureGlyphNames, identical on repeated calls",
+		"5-glyph fonts: 5 outline/name-storage kinds (CFF, CID, glyf with no / too short / full names list) x all name patterns over {empty, A, dup, .notdef, 'a b', f_i, B} per glyph x all subsets of 6 cmap entries (incl. a ligature character, a PUA and an astral code, two codes on one glyph) x 10 GSUB variants (1.1, 1.1 with a negative delta, 1.2 with two sources for one target, 3.1, 4.1, 4.1 with one output of two rules, two ligature lookups with equal components and different outputs, two single substitutions of one glyph, a ligature of a ligature): complete, distinct, .notdef first, unique names kept, inference from cmap / substitutions, retrievable after EnsureGlyphNames, identical on repeated calls",
 		func(c *explore.Ctx) {
 			f, orig, desc := c20Font(c)
 			c.Sample(func() any { return map[string]any{"names": orig, "font": desc} })
@@ -212,31 +217,88 @@ func c20Names(r *run.Run) {
 			if !c20Check(c, sig, orig, got, n, desc) {
 				return
 			}
-			// inference from the cmap: an unnamed glyph with exactly one character gets its Adobe glyph-list name
-			if best, _ := f.CMapTable.GetBest(); best != nil {
-				byGlyph := map[glyph.ID][]rune{}
-				for _, ru := range []rune{'A', 'B', 0xFB01, 0xE000, 0x10000, 'x'} {
-					if g := best.Lookup(ru); g != 0 {
-						byGlyph[g] = append(byGlyph[g], ru)
-					}
-				}
-				taken := map[string]bool{}
-				for _, nm := range orig {
+			// inference, as a reference model of the documented order: (1) existing names, the first of
+			// several equal names wins and glyph 0 is .notdef; (2) character map, code points in
+			// ascending order, the Adobe glyph-list name of the first code point whose name is still
+			// free; (3) substitution rules from glyphs that have a name by now: variant / ligature names;
+			// (4) numbered placeholders for the rest
+			ref := append([]string{}, orig...)
+			ref[0] = ".notdef"
+			taken := map[string]bool{}
+			for i, nm := range ref {
+				if taken[nm] {
+					ref[i] = ""
+				} else {
 					taken[nm] = true
 				}
-				for g, rs := range byGlyph {
-					if orig[g] != "" && countOf(orig, orig[g]) == 1 || len(rs) != 1 {
+			}
+			if best, _ := f.CMapTable.GetBest(); best != nil {
+				for _, ru := range []rune{'A', 'B', 'x', 0xE000, 0xFB01, 0x10000} { // ascending
+					g := best.Lookup(ru)
+					if g == 0 || ref[g] != "" {
 						continue
 					}
-					if firstIndex(orig, orig[g]) == int(g) && orig[g] != "" && orig[g] != ".notdef" {
-						continue // the first of several duplicates keeps the name
+					if nm := names.FromUnicode(string(ru)); !taken[nm] {
+						ref[g], taken[nm] = nm, true
 					}
-					want := names.FromUnicode(string(rs[0]))
-					if taken[want] {
+				}
+			}
+			for g := range ref {
+				if ref[g] != "" && got[g] != ref[g] {
+					c.Fail("C20.inference", sig+" cmap", "glyph %d: expected %q (existing name, or the glyph-list name of the first code point whose name is free), got %q (%q -> %q); %s", g, ref[g], got[g], orig, got, desc)
+					return
+				}
+			}
+			if f.Gsub != nil {
+				placeholder := regexp.MustCompile(`^orn[0-9]+$`)
+				nameable := map[glyph.ID]string{}
+				for _, l := range f.Gsub.LookupList {
+					for _, st := range l.Subtables {
+						switch st := st.(type) {
+						case *gtab.Gsub1_1:
+							for g := range st.Cov {
+								if ref[g] != "" {
+									nameable[g+st.Delta] = ref[g]
+								}
+							}
+						case *gtab.Gsub1_2:
+							for g, i := range st.Cov {
+								if ref[g] != "" {
+									nameable[st.SubstituteGlyphIDs[i]] = ref[g]
+								}
+							}
+						case *gtab.Gsub3_1:
+							for g, i := range st.Cov {
+								for _, t := range st.Alternates[i] {
+									if ref[g] != "" {
+										nameable[t] = ref[g]
+									}
+								}
+							}
+						case *gtab.Gsub4_1:
+							for g, i := range st.Cov {
+							ligs:
+								for _, lig := range st.Repl[i] {
+									if ref[g] == "" {
+										continue
+									}
+									for _, in := range lig.In {
+										if ref[in] == "" {
+											continue ligs
+										}
+									}
+									nameable[lig.Out] = ref[g]
+								}
+							}
+						}
+					}
+				}
+				for g, base := range nameable {
+					if int(g) >= n || ref[g] != "" {
 						continue
 					}
-					if got[g] != want {
-						c.Fail("C20.inference", sig+" cmap", "glyph %d is unnamed and mapped from %U only: expected %q, got %q (%q -> %q); %s", g, rs[0], want, got[g], orig, got, desc)
+					if placeholder.MatchString(got[g]) && !placeholder.MatchString(base) {
+						c.Fail("C20.inference", sig+" substitution", "glyph %d is the output of a substitution rule whose source glyphs are named (%q ...) but gets the placeholder %q instead of a variant / ligature name (%q -> %q); %s", g, base, got[g], orig, got, desc)
 						return
 					}
 				}
